@@ -330,6 +330,93 @@ def _specs_names():
     return [(n,) for n, *_ in _specs(None, collections.defaultdict(lambda: None))]
 
 
+# ---------------------------------------------------------------- construction and _setup: library-global state
+def t_lifecycle(T):
+    """Constructing a backend object changes nothing outside the object (objects are created freely - e.g. to be handed to
+    set_backend later, or never): no library call at all.  _setup() - which set_backend runs AFTER the subscribers of live objects
+    have already recomputed their tensors - configures library-global state only where a backend needs it: pytorch sets the library's
+    default dtype to ITS float type; numpy, jax and tensorflow configure nothing (jax's 64-bit mode is switched on once, at import)."""
+    for fname, bname in BACKENDS:
+        base = f"{TENSOR}/{fname}.py::{fname}"
+        for precision in ("64b", "32b"):
+            eng = T.engine({"inline": [f"{TENSOR}/{fname}.py::"]})
+            for m in ("__init__", "_setup"):
+                T.under_contract(eng, f"{base}.{m}")
+            box = {}
+
+            def run():
+                cls = eng.module(f"{TENSOR}/{fname}.py").get(fname)
+                n0 = len(eng.path.calls)
+                tl = eng.instantiate(cls, [], {"precision": precision})
+                n1 = len(eng.path.calls)
+                eng.call(eng.getattr(tl, "_setup"), [], {})
+                box.update(init=eng.path.calls[n0:n1], setup=eng.path.calls[n1:], tl=tl)
+                return tl
+            results = eng.explore(run)
+            T.absorb(eng, results)
+            for k, r in enumerate(results):
+                sfx = f"@{precision}" + (f",path{k}" if len(results) > 1 else "")
+                meta = dict(backend=bname, lifecycle=True, precision=precision)
+                if r.kind != "return":
+                    T.fail(f"{base}.__init__#no-raise{sfx}", str(r.exc_name), kind="raises", **meta)
+                    continue
+                ext = lambda cs: [c for c in cs if isinstance(c.target, str) and c.target.startswith("ext:")]
+                ci, cs_ = ext(box["init"]), ext(box["setup"])
+                ok = not ci
+                (T.ok if ok else T.fail)(f"{base}.__init__#frame.constructing-a-backend-object-has-no-effect-outside-it{sfx}",
+                                         *([] if ok else [f"library calls during construction: {[c.target for c in ci]}"]), kind="frame", **meta)
+                if bname == "pytorch":
+                    good = len(cs_) == 1 and cs_[0].target == "ext:torch.set_default_dtype"
+                    (T.ok if good else T.fail)(f"{base}._setup#post.sets-the-library-default-dtype-once{sfx}", *([] if good else [f"{[c.target for c in cs_]}"]), kind="frame", **meta)
+                    if good:
+                        want = Ext(DTYPES[bname][precision]["float"])
+                        T.ob_path(eng, f"{base}._setup#post.default-dtype-is-the-float-type-of-this-precision{sfx}", r, _eq(eng, cs_[0].args[0], want), kind="frame", **meta)
+                else:
+                    good = not cs_
+                    (T.ok if good else T.fail)(f"{base}._setup#frame.configures-no-library-global-state{sfx}",
+                                               *([] if good else [f"library calls in _setup: {[c.target for c in cs_]}"]), kind="frame", **meta)
+
+
+def replay_lifecycle(r):
+    """(1) constructing backend objects of the other precision must not change what the active backend computes;
+    (2) a model that lives through  jax/32b -> numpy -> [model] -> jax/64b  holds the same tensors as a model created afterwards"""
+    import numpy as np
+    import pyhf
+    meta = r.get("meta") or {}
+    bname = meta.get("backend")
+    bad = {}
+    try:
+        pyhf.set_backend(bname, precision="64b")
+        tl, _ = pyhf.get_backend()
+        before = str(np.asarray(tl.tolist(tl.normal_cdf(0.3)), dtype=np.float64).item().hex()) + str(getattr(tl.astensor([1.0]), "dtype", ""))
+        other = type(tl)(precision="32b")            # constructed, never activated
+        after = str(np.asarray(tl.tolist(tl.normal_cdf(0.3)), dtype=np.float64).item().hex()) + str(getattr(tl.astensor([1.0]), "dtype", ""))
+        if before != after:
+            bad["constructing-an-unused-32b-backend-object"] = {"normal_cdf(0.3) and float dtype before": before, "after": after}
+        if bname == "pytorch":
+            import torch
+            if torch.get_default_dtype() != torch.float64:
+                bad["library default dtype under the active 64b backend"] = str(torch.get_default_dtype())
+        del other
+        spec = {"channels": [{"name": "c", "samples": [{"name": "s", "data": [50.123456789012345, 60.1], "modifiers": [
+            {"name": "mu", "type": "normfactor", "data": None}, {"name": "u", "type": "shapesys", "data": [5.123456789012345, 7.7]}]}]}]}
+        pyhf.set_backend(bname, precision="32b")
+        pyhf.set_backend("numpy" if bname != "numpy" else "jax")
+        old = pyhf.Model(spec, poi_name="mu")
+        pyhf.set_backend(bname, precision="64b")
+        new = pyhf.Model(spec, poi_name="mu")
+        tl, _ = pyhf.get_backend()
+        pars = tl.astensor([1.0, 1.01, 0.99])
+        a, b = np.asarray(tl.tolist(old.expected_data(pars)), dtype=np.float64), np.asarray(tl.tolist(new.expected_data(pars)), dtype=np.float64)
+        if a.shape != b.shape or not np.array_equal(a, b):
+            bad[f"history {bname}/32b > other > [model] > {bname}/64b"] = {"old model": a.tolist(), "model created after the switch": b.tolist()}
+    except Exception as e:
+        bad["exception"] = f"{type(e).__name__}: {e}"
+    finally:
+        pyhf.set_backend("numpy")
+    return {"reproduced": bool(bad), "disagreements": bad}
+
+
 def backend_op_tasks(tier=None):
     return [(f"backend-ops[{bname}]", make_task(fname, bname)) for fname, bname in BACKENDS]
 
@@ -348,6 +435,8 @@ def replay_backend_op(r):
     import pyhf
     from scipy import special
     meta = r.get("meta") or {}
+    if meta.get("lifecycle"):
+        return replay_lifecycle(r)
     bname, op = meta.get("backend"), meta.get("op")
     if not bname or not op:
         return None
